@@ -37,6 +37,9 @@ type C05Scenario struct {
 	Ops   []C05Op         `json:"ops"`
 	Chunk int             `json:"chunk"`
 	Conn  bool            `json:"conn"` // feed the stream through a real hap.Connection (Read) instead of Decrypt
+	// Duplex > 0: while Decrypt waits in its Duplex-th read of the source, the accessory sends a
+	// byte in the other direction on the same session (as the connection's writers do)
+	Duplex int `json:"duplex,omitempty"`
 }
 
 var c05Kinds = []string{"flip", "trunc", "drop", "dup", "swap", "replay", "reflect", "xsess", "splice", "insert", "lenbit", "tagbit", "xctr", "xctr"}
@@ -58,6 +61,9 @@ func genC05(rt *rapid.T) interface{} {
 		default:
 			sc.Msgs = append(sc.Msgs, rapid.IntRange(0, 2600).Draw(rt, "len"))
 		}
+	}
+	if rapid.IntRange(0, 2).Draw(rt, "duplex") == 0 {
+		sc.Duplex = rapid.IntRange(1, 10).Draw(rt, "duplexat")
 	}
 	k := rapid.IntRange(0, 3).Draw(rt, "nops")
 	for i := 0; i < k; i++ {
@@ -237,6 +243,15 @@ func runC05(t *testing.T, sci interface{}) *Outcome {
 	_ = altered
 
 	src := newChunkReader(stream, sc.Chunk, sc.Seed)
+	if sc.Duplex > 0 {
+		src.duringAt = sc.Duplex
+		src.during = func() {
+			o.Stats["probe.encrypt_while_decrypt_waits"]++
+			if r, err := acc.Encrypt(bytes.NewReader([]byte{0x2a})); err == nil {
+				io.ReadAll(r)
+			}
+		}
+	}
 	var released []byte
 	var derr error
 	calls := 0
